@@ -28,7 +28,8 @@ CONSTANTS Contents,    \* set of row sequences for L1
           Schema,      \* "AB" | "ZERO" | "AV"
           MaxDepth,
           Rich,
-          Emit
+          Emit,
+          EmitMin      \* emit only states whose history has at least this length (simulation runs)
 
 VARIABLES l1, bnd, hist, rel, ref
 vars == <<l1, bnd, hist, rel, ref>>
@@ -248,7 +249,7 @@ Fired ==    \* some rewrite rule changed the naive one-node-per-call shape
     Cardinality({m \in Nodes(rel) : m.k # "leaf"}) # n
 
 EmitState ==
-    Emit =>
+    (Emit /\ Len(hist) >= EmitMin) =>
       LET c == Cost(rel)
           d0 == Diag(rel, Env, FALSE)
           d1 == Diag(rel, Env, TRUE)
